@@ -1291,12 +1291,16 @@ impl SourceBuf {
             return Ok(false);
         }
 
-        let (sym, sym_end) =
-            match Symbol::from_slice_index(&self.buf, sym_end) {
-                Ok(Some(some)) => some,
-                _ => return Ok(false),
-            };
-        if sym.is_word_char() {
+        // The marker has to be a token of its own: the next symbol has to
+        // end the token. It is only looked at here and is left in the
+        // buffer so `next_item` can deal with it properly, whether it is
+        // white space, a line feed, a parenthesis, or the start of a comment.
+        let (next_sym, _) = match Symbol::from_slice_index(&self.buf, sym_end)
+        {
+            Ok(Some(some)) => some,
+            _ => return Ok(false),
+        };
+        if next_sym.is_word_char() {
             return Ok(false);
         }
 
